@@ -944,7 +944,8 @@ class ParsedBindingKey(typing.NamedTuple):
       err_str = "Method '{}' referenced without class name '{}'."
       raise ValueError(err_str.format(selector, class_name))
 
-    if not _might_have_parameter(configurable_.wrapper, arg_name):
+    if not _might_have_parameter(
+        configurable_.wrapper, arg_name, is_method=configurable_.is_method):
       err_str = "Configurable '{}' doesn't have a parameter named '{}'."
       raise ValueError(err_str.format(selector, arg_name))
 
@@ -1138,7 +1139,7 @@ def query_parameter(binding_key):
   return _CONFIG[pbk.config_key][pbk.arg_name]
 
 
-def _might_have_parameter(fn_or_cls, arg_name):
+def _might_have_parameter(fn_or_cls, arg_name, is_method=False):
   """Returns True if `arg_name` might be a valid parameter for `fn_or_cls`.
 
   Specifically, this means that `fn_or_cls` either has a parameter named
@@ -1147,6 +1148,7 @@ def _might_have_parameter(fn_or_cls, arg_name):
   Args:
     fn_or_cls: The function or class to check.
     arg_name: The name fo the parameter.
+    is_method: Whether `fn_or_cls` is a method addressed through its class.
 
   Returns:
     Whether `arg_name` might be a valid argument of `fn`.
@@ -1161,7 +1163,10 @@ def _might_have_parameter(fn_or_cls, arg_name):
   arg_spec = _get_cached_arg_spec(fn)
   if arg_spec.varkw:  # pytype: disable=attribute-error
     return True
-  return arg_name in arg_spec.args or arg_name in arg_spec.kwonlyargs  # pytype: disable=attribute-error
+  args = arg_spec.args  # pytype: disable=attribute-error
+  if inspect.isclass(fn_or_cls) or is_method:  # pytype: disable=wrong-arg-types
+    args = args[1:]  # The instance (or class) is supplied by Python, never by Gin.
+  return arg_name in args or arg_name in arg_spec.kwonlyargs  # pytype: disable=attribute-error
 
 
 def _validate_parameters(fn_or_cls, arg_name_list, err_prefix):
